@@ -20,6 +20,9 @@ CHECK_DEADLOCK FALSE
 """
 
 
+REPLAY = ("TraceValidate", TRACE_CFG)
+
+
 def signature(events, at):
     ev = json.loads(events[at - 1]) if 0 < at <= len(events) else {}
     if ev.get("op") == "limit":
